@@ -35,8 +35,20 @@ pub fn topo(case: &Value) -> Value {
             adj_order.push(json!([n, order]));
         }
         let req_order: Vec<u64> = req.iter().map(|s| idx(s)).collect();
+        // the same collections in sorted name order (the order a tree that sorts before
+        // iterating uses); the model is tried under both, see tools/props/c20.py
+        let mut adj_sorted = Vec::new();
+        for e in case["adj"].as_array().unwrap() {
+            let n = e[0].as_u64().unwrap();
+            let mut names: Vec<&String> = g.dependencies.get(&name(n)).unwrap().iter().collect();
+            names.sort();
+            adj_sorted.push(json!([n, names.iter().map(|s| idx(s)).collect::<Vec<u64>>()]));
+        }
+        let mut req_names: Vec<&String> = req.iter().collect();
+        req_names.sort();
+        let req_sorted: Vec<u64> = req_names.iter().map(|s| idx(s)).collect();
         let out: Vec<u64> = g.topological_sort_types(&req).iter().map(|s| idx(s)).collect();
-        runs.push(json!({"adj": adj_order, "req": req_order, "out": out}));
+        runs.push(json!({"adj": adj_order, "req": req_order, "adj_sorted": adj_sorted, "req_sorted": req_sorted, "out": out}));
     }
     json!({"id": case["id"], "runs": runs})
 }
